@@ -98,8 +98,15 @@ def run_case(exe, stream, inp_line):
     return case, exp, got
 
 
-def shrink(exe, stream, case, got0):
-    """Greedy removal of input lines while the driver keeps giving the same answer (same violated clause)."""
+def same_failure(e0, g0, e, g):
+    if e0.startswith("crash:"):
+        return e.startswith("crash:")
+    return g == g0 and e != g
+
+
+def shrink(exe, stream, case, got0, exp0=""):
+    """Greedy removal of input lines while the driver keeps giving the same answer (same violated clause)
+    (or, for a crash, while the implementation keeps crashing)."""
     try:
         pre, sets, suf = input_part(stream, case)
     except Exception:
@@ -117,7 +124,7 @@ def shrink(exe, stream, case, got0):
                     cand = [list(s) for s in sets]
                     cand[si] = cand[si][:i] + cand[si][i + 1:]
                     c, e, g = run_case(exe, stream, build_input(stream, pre, cand, suf))
-                    if g == got0 and e != g:
+                    if same_failure(exp0, got0, e, g):
                         sets = cand
                         best = (c, e, g)
                         changed = True
@@ -136,7 +143,7 @@ def _limits():
 
 
 def replay_survives(exe, stream, lines, timeout):
-    """True iff `c19 replay` gets through all `lines` (input lines) without crashing, being killed or timing out."""
+    """True iff `c19 replay` gets through all `lines` (input lines) without throwing, crashing, being killed or timing out."""
     p = os.path.join(verif.BUILD, "work", "c19-crash-%d.txt" % os.getpid())
     os.makedirs(os.path.dirname(p), exist_ok=True)
     with open(p, "w") as f:
@@ -148,33 +155,41 @@ def replay_survives(exe, stream, lines, timeout):
         return False, "timeout after %ds" % timeout
     if r.returncode != 0:
         return False, "exit %d %s" % (r.returncode, r.stdout.decode("utf-8", "replace")[-300:])
-    if len([l for l in r.stdout.decode("utf-8", "replace").split("\n") if l]) != len(lines):
+    outl = [l for l in r.stdout.decode("utf-8", "replace").split("\n") if l]
+    if len(outl) != len(lines):
         return False, "answered fewer lines than cases"
+    for l in outl:
+        if "\tcrash:" in l:
+            return False, l.split("\t", 1)[1]
     return True, ""
 
 
 def find_crashing_input(exe, stream, seed, n, shards, workdir):
-    """The harness died on this stream: regenerate the same inputs without calling GEOS (C19_DRY) and bisect for one
-    input on which the implementation crashes / hangs / exhausts memory.  Returns (input line, how) or None."""
+    """The harness died on this stream: regenerate the same inputs without calling GEOS (C19_DRY), replay them one process
+    per shard (output flushed per case) and return an input on which the implementation throws, crashes or hangs:
+    (input line, how) or None."""
     for k in range(shards):
         base = os.path.join(workdir, "%s.dry.%d" % (stream, k))
         rc, out = verif.sh([exe, stream, str(seed * 1000003 + k), str(max(1, n // shards)), base], env={"C19_DRY": "1"}, timeout=600)
         if rc != 0 or not os.path.exists(base + ".cases"):
             continue
         lines = [l for l in open(base + ".cases").read().split("\n") if l]
-        ok, how = replay_survives(exe, stream, lines, 120)
-        if ok:
-            continue
-        while len(lines) > 1:
-            half = lines[:len(lines) // 2]
-            ok, h2 = replay_survives(exe, stream, half, 60)
-            if ok:
-                lines = lines[len(lines) // 2:]
-            else:
-                lines, how = half, h2
-        ok, h2 = replay_survives(exe, stream, lines, 30)
-        if not ok:
-            return lines[0], h2
+        try:
+            r = subprocess.run([exe, "replay", stream, base + ".cases"], stdout=subprocess.PIPE, stderr=subprocess.PIPE, timeout=900,
+                               preexec_fn=_limits)
+            rc, outb = r.returncode, r.stdout
+        except subprocess.TimeoutExpired as ex:
+            rc, outb = 124, (ex.stdout or b"")
+        outl = [l for l in outb.decode("utf-8", "replace").split("\n") if l]
+        if rc != 0 and len(outl) < len(lines):
+            cand = lines[len(outl)]               # the case being run when the process died
+            ok, how = replay_survives(exe, stream, [cand], 60)
+            if not ok:
+                return cand, how
+        for l in outl:
+            if "\tcrash:" in l:
+                c, e = l.split("\t", 1)
+                return c, e
     return None
 
 
@@ -248,11 +263,17 @@ def run(ctx):
 
     def report_contract(stream, case, exp, got):
         nonlocal found_input
-        sig0 = signature(stream, case, got)
+        sig0 = signature(stream, case, "violated:implementation-crashes-or-hangs" if exp.startswith("crash:") else got)
         if sig0 in seen:
             return
-        c2, e2, g2 = shrink(exe, stream, case, got)
-        if e2 == g2:          # not reproducible through replay: keep the original
+        if exp.startswith("crash:"):
+            got = "violated:implementation-crashes-or-hangs"
+        c2, e2, g2 = shrink(exe, stream, case, got, exp)
+        if exp.startswith("crash:"):
+            g2 = got
+            if not e2.startswith("crash:"):
+                c2, e2 = case, exp
+        elif e2 == g2:          # not reproducible through replay: keep the original
             c2, e2, g2 = case, exp, got
         sig = signature(stream, c2, g2)
         seen.append(sig0)
@@ -374,7 +395,7 @@ def replay(ctx, path):
     print("case  :", c[:2000])
     print("impl  :", e[:500])
     print("driver:", g[:500])
-    if e != g:
+    if e != g or e.startswith("crash:"):
         print("VIOLATION property=C19 replay=%s" % path)
         return 1
     return 0
